@@ -1,13 +1,19 @@
 package main
 
 import (
+	"bytes"
+	stdhkdf "crypto/hkdf"
+	stdsha3 "crypto/sha3"
 	"encoding/binary"
 	"fmt"
 	"math"
-	"sort"
+	"os"
+	"os/exec"
+	"path/filepath"
 	"strconv"
 	"strings"
 	"sync"
+	"time"
 
 	tls "github.com/refraction-networking/utls"
 )
@@ -36,6 +42,78 @@ func genPrngOp(r *Rng) string {
 	default:
 		return "U"
 	}
+}
+
+// salts on the line: "-" = unsalted prng, "s:<hex>" = salted with these bytes ("s:-" = the empty salt).
+func c30Salt(tok string) (bool, string) {
+	if !strings.HasPrefix(tok, "s:") {
+		return false, ""
+	}
+	return true, string(unhex(tok[2:]))
+}
+
+// c30GenSalts picks the salt of a prng case and a second salt to compare it with: salts of
+// 0,1,4,31,32,33,64,100 (and a few other) bytes; the second one equal, extended, or differing in
+// the first / the last / one byte beyond the first 32 (so the pair shares a 32-byte prefix) or
+// beyond the first 64, in the case of one letter, or by one trailing printable/whitespace byte. Salts never end in a NUL byte here: HMAC pads its key with zeros, so
+// salts that differ only by trailing NULs are the same HKDF salt by construction (see report).
+func c30GenSalts(r *Rng, i int) (string, string) {
+	if r.Intn(3) == 0 {
+		return "-", "-"
+	}
+	nz := func(b []byte) []byte {
+		if n := len(b); n > 0 && b[n-1] == 0 {
+			b[n-1] = 0x41
+		}
+		return b
+	}
+	var salt []byte
+	if r.Intn(6) == 0 {
+		salt = []byte("ALPS")
+	} else {
+		salt = nz(r.Bytes(Pick(r, []int{0, 1, 4, 31, 32, 33, 64, 100, 33, 40, 65, 136, 137, 200})))
+	}
+	other := append([]byte(nil), salt...)
+	flip := func(k int) {
+		other[k] ^= byte(1 + r.Intn(255))
+		other = nz(other)
+		if bytes.Equal(other, salt) {
+			other[k] ^= 0x10
+		}
+	}
+	letter := -1
+	for k, c := range salt {
+		if c|0x20 >= 'a' && c|0x20 <= 'z' {
+			letter = k
+			break
+		}
+	}
+	switch k := r.Intn(9); {
+	case k == 0:
+		// the same salt again
+	case k == 1 || len(salt) == 0:
+		other = append(other, Pick(r, []byte{0x27, 0x20, 0x0a, 0x2f, 0x61, 0x09}))
+	case k == 7 && letter >= 0:
+		other[letter] ^= 0x20 // the same text in the other case
+	case k == 8 && len(salt) > 1 && salt[len(salt)-2] != 0:
+		other = other[:len(other)-1] // a proper prefix
+	case k == 2:
+		flip(0)
+	case k == 3:
+		flip(len(other) - 1)
+	case k == 4 && len(salt) > 32:
+		flip(32 + r.Intn(len(other)-32)) // same first 32 bytes
+	case k == 5 && len(salt) > 64:
+		flip(64 + r.Intn(len(other)-64)) // same first 64 bytes
+	default:
+		// extend to beyond 32 bytes with a common prefix, differ in the tail only
+		for want := 33 + r.Intn(8); len(salt) < want; {
+			salt = append(salt, byte(0x61+r.Intn(26)))
+		}
+		other = append([]byte(nil), salt...)
+		flip(32 + r.Intn(len(other)-32))
+	}
+	return "s:" + hx(salt), "s:" + hx(other)
 }
 
 func seedFrom(hexs string) tls.PRNGSeed {
@@ -86,16 +164,13 @@ func init() {
 			for j := 0; j < n; j++ {
 				ops = append(ops, genPrngOp(r))
 			}
-			salt := Pick(r, []string{"", "", "ALPS", "x"})
-			if salt == "" {
-				salt = "-"
-			}
-			return fmt.Sprintf("seed=%s salt=%s ops=%s", hx(r.Bytes(32)), salt, joinList(ops))
+			salt, salt2 := c30GenSalts(r, i)
+			return fmt.Sprintf("seed=%s salt=%s salt2=%s ops=%s", hx(r.Bytes(32)), salt, salt2, joinList(ops))
 		},
 		Exec: func(in KV) string {
 			seed := seedFrom(in["seed"])
-			salted := in["salt"] != "-"
-			mk := func(salt string) *tls.VerifPRNG {
+			salted, salt := c30Salt(in["salt"])
+			mk := func() *tls.VerifPRNG {
 				p, err := tls.VerifNewPRNG(seed, salt, salted)
 				if err != nil {
 					panic(err)
@@ -103,82 +178,245 @@ func init() {
 				return p
 			}
 			ops := splitList(in["ops"])
-			r1 := runPrngOps(mk(in["salt"]), ops)
-			r2 := runPrngOps(mk(in["salt"]), ops)
+			r1 := runPrngOps(mk(), ops)
+			r2 := runPrngOps(mk(), ops)
 			// tap: raw stream of an identical prng, as big-endian uint64 words
-			tap := mk(in["salt"])
+			tap := mk()
 			buf := make([]byte, 8*400)
 			tap.Read(buf)
 			var draws []string
 			for i := 0; i < 400; i++ {
 				draws = append(draws, fmt.Sprint(binary.BigEndian.Uint64(buf[8*i:])))
 			}
-			// other salt => different stream (sampled, cryptographic)
-			differs := "na"
+			// the stream under the second salt of the case (same base seed): equal salts must give the
+			// same stream, different salts a different one (sampled on the first 64 bytes)
+			s2eq, kdf := "na", "na"
 			if salted {
-				o, _ := tls.VerifNewPRNG(seed, in["salt"]+"'", true)
-				b2 := make([]byte, 32)
-				o.Read(b2)
-				differs = fmt.Sprint(string(b2) != string(buf[:32]))
+				if ok2, other := c30Salt(in["salt2"]); ok2 {
+					o, err := tls.VerifNewPRNG(seed, other, true)
+					if err != nil {
+						panic(err)
+					}
+					b2 := make([]byte, 64)
+					o.Read(b2)
+					s2eq = fmt.Sprint(bytes.Equal(b2, buf[:64]))
+				}
+				// independent derivation with the standard library: the salted seed is
+				// HKDF-SHA3-256(secret = seed, salt = the whole salt, info = none), 32 bytes,
+				// and the stream is SHAKE256 of it
+				derived, err := stdhkdf.Key(stdsha3.New256, seed[:], []byte(salt), "", 32)
+				if err != nil {
+					panic(err)
+				}
+				sh := stdsha3.NewSHAKE256()
+				sh.Write(derived)
+				want := make([]byte, 64)
+				sh.Read(want)
+				kdf = fmt.Sprint(bytes.Equal(want, buf[:64]))
+			} else {
+				sh := stdsha3.NewSHAKE256()
+				sh.Write(seed[:])
+				want := make([]byte, 64)
+				sh.Read(want)
+				kdf = fmt.Sprint(bytes.Equal(want, buf[:64]))
 			}
-			return fmt.Sprintf("res=%s again=%v differs=%s draws=%s", joinList(r1), strings.Join(r1, ",") == strings.Join(r2, ","), differs, joinList(draws))
+			return fmt.Sprintf("res=%s again=%v s2eq=%s kdf=%s draws=%s", joinList(r1), strings.Join(r1, ",") == strings.Join(r2, ","), s2eq, kdf, joinList(draws))
 		},
 	})
 	register(&Family{
-		Name: "prng_conc",
+		Name:    "prng_conc",
+		Timeout: 120 * time.Second,
 		Gen: func(r *Rng, i int, tier string) string {
-			return fmt.Sprintf("seed=%s threads=%d per=%d", hx(r.Bytes(32)), 2+r.Intn(5), 50+r.Intn(200))
+			// many goroutines x thousands of draws on ONE prng: every helper that draws exactly one
+			// word per call (so that the words handed out can be accounted for one by one)
+			threads := 16 + r.Intn(17)
+			per := 2000 + r.Intn(2001)
+			if i%8 == 7 {
+				threads, per = 2+r.Intn(5), 50+r.Intn(200) // the light shape of the first version
+			}
+			kinds := []string{"U", "UKJN", "UK", "UJ", "UN", "UKJNR", "K", "J", "N"}[i%9]
+			return fmt.Sprintf("seed=%s threads=%d per=%d kinds=%s", hx(r.Bytes(32)), threads, per, kinds)
 		},
-		Exec: func(in KV) string {
-			seed := seedFrom(in["seed"])
-			p, _ := tls.VerifNewPRNG(seed, "", false)
-			nt, per := in.Int("threads"), in.Int("per")
-			var mu sync.Mutex
-			var got []uint64
-			var wg sync.WaitGroup
-			for t := 0; t < nt; t++ {
-				wg.Add(1)
-				go func(t int) {
-					defer wg.Done()
-					defer func() { recover() }()
-					local := make([]uint64, 0, per)
-					for i := 0; i < per; i++ {
-						if t%2 == 0 {
-							local = append(local, p.Uint64())
-						} else {
-							var b [8]byte
-							p.Read(b[:])
-							local = append(local, binary.BigEndian.Uint64(b[:]))
-						}
-					}
-					mu.Lock()
-					got = append(got, local...)
-					mu.Unlock()
-				}(t)
-			}
-			wg.Wait()
-			ref, _ := tls.VerifNewPRNG(seed, "", false)
-			want := make([]uint64, nt*per)
-			for i := range want {
-				want[i] = ref.Uint64()
-			}
-			sort.Slice(got, func(i, j int) bool { return got[i] < got[j] })
-			sort.Slice(want, func(i, j int) bool { return want[i] < want[j] })
-			// compare as multisets; report sizes and the number of mismatching positions
-			bad := 0
-			if len(got) != len(want) {
-				bad = 1 + len(want) - len(got)
-				if bad < 0 {
-					bad = -bad
-				}
-			} else {
-				for i := range got {
-					if got[i] != want[i] {
-						bad++
-					}
-				}
-			}
-			return fmt.Sprintf("got=%d want=%d mismatches=%d", len(got), len(want), bad)
-		},
+		Exec: c30ExecConc,
 	})
+	register(&Family{
+		Name:    "prng_race",
+		Timeout: 30 * time.Minute,
+		Gen: func(r *Rng, i int, tier string) string {
+			// thorough tier only: the concurrent draws once more under the Go race detector
+			if tier != "thorough" || i >= 2 {
+				return ""
+			}
+			return fmt.Sprintf("seed=%s threads=%d per=%d kinds=%s", hx(r.Bytes(32)), 8+4*i, 3000, []string{"UKJNR", "U"}[i])
+		},
+		Exec: c30ExecRace,
+	})
+}
+
+// c30ExecRace builds this harness once more with -race (same tags, same module file) into a
+// temporary directory and lets that binary execute a prng_conc case; a report of the race
+// detector on stderr is a data race between concurrent calls on one prng.
+//
+//	race=none | detected | unavailable (no race-enabled build possible here: not a verdict)
+func c30ExecRace(in KV) string {
+	exe, err := os.Executable()
+	if err != nil {
+		return "race=unavailable why=no-executable-path"
+	}
+	harn := filepath.Dir(filepath.Dir(exe))
+	tmp, err := os.MkdirTemp("", "c30race")
+	if err != nil {
+		return "race=unavailable why=no-tempdir"
+	}
+	defer os.RemoveAll(tmp)
+	bin := filepath.Join(tmp, "corr-race")
+	args := []string{"build", "-race", "-tags", "verif", "-o", bin}
+	if repo := os.Getenv("VERIF_REPO"); repo != "" {
+		if rp, err := filepath.EvalSymlinks(repo); err == nil && rp != "/repo" {
+			args = append(args, "-modfile=go.scratch.mod")
+		}
+	}
+	build := exec.Command("go", append(args, "./cmd/corr")...)
+	build.Dir = harn
+	build.Env = append(os.Environ(), "CGO_ENABLED=1")
+	if out, err := build.CombinedOutput(); err != nil {
+		return "race=unavailable why=" + sanitize(string(out))
+	}
+	line := fmt.Sprintf("prng_conc seed=%s threads=%s per=%s kinds=%s\n", in["seed"], in["threads"], in["per"], in["kinds"])
+	run := exec.Command(bin, "exec")
+	run.Stdin = strings.NewReader(line)
+	run.Env = append(os.Environ(), "GORACE=halt_on_error=0 exitcode=0")
+	var stderr, stdout bytes.Buffer
+	run.Stderr, run.Stdout = &stderr, &stdout
+	if err := run.Run(); err != nil {
+		return "race=unavailable why=" + sanitize(err.Error())
+	}
+	conc := "?"
+	if i := strings.Index(stdout.String(), "mismatches="); i >= 0 {
+		conc = strings.Fields(stdout.String()[i:])[0]
+	}
+	if strings.Contains(stderr.String(), "DATA RACE") {
+		where := "?"
+		for _, l := range strings.Split(stderr.String(), "\n") {
+			if strings.Contains(l, "utls.") {
+				where = sanitize(strings.TrimSpace(l))
+				break
+			}
+		}
+		return fmt.Sprintf("race=detected %s where=%s", conc, where)
+	}
+	return "race=none " + conc
+}
+
+// c30ExecConc: `threads` goroutines draw `per` values each from one prng; goroutine t uses the
+// helper kinds[t % len(kinds)]:
+//
+//	U Uint64()            the whole word
+//	K Int63()             word & (2^63-1)
+//	J Int63n(1<<62)       word & (2^62-1)   (power of two: one draw, masked)
+//	N Intn(1<<62)         word & (2^62-1)   (int is 64-bit: rand.Intn -> Int63n)
+//	R Read(8 bytes)       the whole word
+//
+// Safe concurrent use means the calls behave as if executed one after the other in some order,
+// i.e. the draws are a partition of the first threads*per words of the sequential stream of the
+// same seed: every drawn value is accounted for by its own word of that prefix and no word of
+// the prefix is left over. (All masks keep >= 62 bits, so a draw identifies its word.)
+func c30ExecConc(in KV) string {
+	seed := seedFrom(in["seed"])
+	p, _ := tls.VerifNewPRNG(seed, "", false)
+	nt, per := in.Int("threads"), in.Int("per")
+	kinds := in["kinds"]
+	if kinds == "" {
+		kinds = "UR"
+	}
+	type draw struct {
+		v    uint64
+		mask uint64
+	}
+	const m63, m62 = uint64(1)<<63 - 1, uint64(1)<<62 - 1
+	results := make([][]draw, nt)
+	var wg sync.WaitGroup
+	start := make(chan struct{})
+	for t := 0; t < nt; t++ {
+		wg.Add(1)
+		go func(t int) {
+			defer wg.Done()
+			defer func() { recover() }()
+			local := make([]draw, 0, per)
+			<-start
+			switch kinds[t%len(kinds)] {
+			case 'U':
+				for i := 0; i < per; i++ {
+					local = append(local, draw{p.Uint64(), ^uint64(0)})
+				}
+			case 'K':
+				for i := 0; i < per; i++ {
+					local = append(local, draw{uint64(p.Int63()), m63})
+				}
+			case 'J':
+				for i := 0; i < per; i++ {
+					local = append(local, draw{uint64(p.Int63n(1 << 62)), m62})
+				}
+			case 'N':
+				for i := 0; i < per; i++ {
+					local = append(local, draw{uint64(p.Intn(1 << 62)), m62})
+				}
+			default:
+				for i := 0; i < per; i++ {
+					var b [8]byte
+					p.Read(b[:])
+					local = append(local, draw{binary.BigEndian.Uint64(b[:]), ^uint64(0)})
+				}
+			}
+			results[t] = local
+		}(t)
+	}
+	close(start)
+	wg.Wait()
+	// the sequential stream of the same seed
+	ref, _ := tls.VerifNewPRNG(seed, "", false)
+	total := nt * per
+	refBytes := make([]byte, 8*total)
+	ref.Read(refBytes)
+	free := make(map[uint64]int, total) // low 62 bits of a word -> how many unclaimed copies
+	full := make(map[uint64][]uint64, total)
+	for i := 0; i < total; i++ {
+		w := binary.BigEndian.Uint64(refBytes[8*i:])
+		free[w&m62]++
+		full[w&m62] = append(full[w&m62], w)
+	}
+	got, foreign, dup := 0, 0, 0
+	first := "-"
+	for _, loc := range results {
+		for _, d := range loc {
+			got++
+			k := d.v & m62
+			cands, ok := full[k]
+			match := false
+			for _, w := range cands {
+				if w&d.mask == d.v {
+					match = true
+				}
+			}
+			switch {
+			case !ok || !match:
+				foreign++ // not a word of the prefix at all (torn, or beyond the prefix)
+				if first == "-" {
+					first = fmt.Sprintf("foreign:%d", d.v)
+				}
+			case free[k] == 0:
+				dup++ // handed out more often than the stream contains it
+				if first == "-" {
+					first = fmt.Sprintf("dup:%d", d.v)
+				}
+			default:
+				free[k]--
+			}
+		}
+	}
+	lost := 0
+	for _, n := range free {
+		lost += n
+	}
+	return fmt.Sprintf("got=%d want=%d mismatches=%d foreign=%d dup=%d lost=%d first=%s", got, total, foreign+dup+lost, foreign, dup, lost, first)
 }
